@@ -69,7 +69,7 @@ type c16P struct {
 	code   uint8
 }
 
-var c16Idx = [...]string{"0", "1", "2", "3", "4"}
+var c16Idx = [...]string{"0", "1", "2", "3", "4", "5"}
 
 // c16Table is the table in the doc comment of decidePaymentStatus, transcribed
 // row by row; index = inflight<<3 | settled<<2 | htlcFailed<<1 | paymentFailed.
@@ -257,14 +257,19 @@ func c16SymAtt(tag string, kinds int, fixKind int) c16A {
 }
 
 // c16Pre draws the symbolic pre-state: payment value, 0..maxN attempts each in
-// one of the three states, optional failure reason. anyKind: each attempt is
+// one of the three states (maxN+1 in the deep variant), optional failure reason. anyKind: each attempt is
 // plain / MPP / blinded; otherwise every attempt carries an MPP record (the
 // kind is irrelevant to every operation except RegisterAttempt).
 func c16Pre(maxN int, anyKind bool) c16P {
 	var p c16P
 	p.value = vU64("value")
 	vAssume(p.value <= c16MaxMsat)
-	n := vChoice("n", maxN+1)
+	// structural bound: deep=0 explores 0..maxN attempts, deep=1 exactly
+	// maxN+1 attempts (thorough tier only; pinned through spec "shards").
+	n := maxN + 1
+	if vChoice("deep", 2) == 0 {
+		n = vChoice("n", maxN+1)
+	}
 	for i := 0; i < n; i++ {
 		var a c16A
 		if anyKind {
@@ -317,9 +322,16 @@ func c16DoRegister(m *MPPayment, att *HTLCAttemptInfo) error {
 	if err := verifyAttempt(m, att); err != nil {
 		return err
 	}
+	old := m.HTLCs
 	m.HTLCs = append(m.HTLCs, HTLCAttempt{HTLCAttemptInfo: *att})
+	if err := m.setState(); err != nil {
+		// the re-fetch inside the transaction failed: the write is
+		// rolled back (kvdb.Batch / ExecTx return the error)
+		m.HTLCs = old
+		return err
+	}
 
-	return m.setState()
+	return nil
 }
 
 var errC16NoAttempt = errors.New("HTLC not registered")
@@ -502,8 +514,9 @@ func VerifC16Status() {
 	wait, werr := m.NeedWaitAttempts()
 	if p.value > 0 {
 		// A zero-value payment is refused before it reaches the store
-		// (routing: ErrZeroAmount... / rpc validation); with value 0 the
-		// remaining amount carries no information.
+		// (lnrpc/routerrpc/router_backend.go:1055, :1182 "amount must be
+		// specified"); with value 0 the remaining amount carries no
+		// information.
 		if werr != nil {
 			vReach("wait-error")
 			vAssert(want == StatusSucceeded && sent < p.value, "NeedWaitAttempts errors only for a succeeded payment that was under-paid")
@@ -598,8 +611,10 @@ func c16RegisterBody(maxN int) {
 		case errors.Is(err, ErrMPPRecordInBlindedPayment):
 			vReach("refuse-mpp-in-blinded")
 		case errors.Is(err, ErrSentExceedsTotal):
-			// the attempt was stored and only the re-fetch noticed
-			vAssert(false, "an attempt was stored that makes sent exceed the payment value")
+			// verifyAttempt let it through and only the re-fetch's
+			// setState noticed (the transaction is rolled back then,
+			// but the guard the property names is verifyAttempt)
+			vAssert(false, "verifyAttempt admitted an attempt that makes sent exceed the payment value (only the re-fetch noticed)")
 		default:
 			vAssert(false, "unexpected error class from RegisterAttempt")
 		}
